@@ -19,7 +19,7 @@ def drop_scripts(rng, thorough):
                 scen += 1
                 ops = [{"op": "attach", "c": 1, "ptype": S.PEER_OF[t][0]}, {"op": "attach", "c": 2, "ptype": S.PEER_OF[t][0]}]
                 if pos > 0:
-                    ops.append({"op": "pbegin", "c": 1, "m": [f.hex() for f in m], "upto": max(1, min(999, pos * 1000 // enc_len))})
+                    ops.append({"op": "pbegin", "c": 1, "m": [S.hx(f) for f in m], "upto": max(1, min(999, pos * 1000 // enc_len))})
                 for rep in range(rng.randint(1, 3)):
                     if polls == 0:
                         ops += [{"op": "recv_poll"}, {"op": "recv_drop"}] if rng.random() < 0.5 else []
@@ -28,12 +28,16 @@ def drop_scripts(rng, thorough):
                         ops += [{"op": "call_poll"}] * (polls - 1)
                         ops.append({"op": "recv_drop"})
                 if pos > 0:
-                    if rng.random() < 0.5:
+                    r = rng.random()
+                    if r < 0.35:
                         ops += [{"op": "recv_poll"}, {"op": "pfinish", "c": 1}, {"op": "recv_drop"}]     # completes while a recv is pending, then dropped un-polled
+                    elif r < 0.7:
+                        # completes while a NEW recv (new waker) is parked after earlier abandoned ones: it must be woken
+                        ops += [{"op": "recv_poll"}, {"op": "pfinish", "c": 1}, {"op": "quiescent"}, {"op": "recv_drop"}]
                     else:
                         ops.append({"op": "pfinish", "c": 1})
                 else:
-                    ops.append({"op": "psend", "c": 1, "m": [f.hex() for f in m]})
+                    ops.append({"op": "psend", "c": 1, "m": [S.hx(f) for f in m]})
                 ops.append({"op": "psend", "c": 2, "m": dlvlib.msg_for(t, 2, 2)})
                 ops += [{"op": "recv_poll"}, {"op": "recv_drop"}] * rng.randint(0, 2)
                 ops += [{"op": "recv"}, {"op": "recv"}, {"op": "recv"}, {"op": "quiescent"}, {"op": "recv_drop"}]
@@ -42,7 +46,7 @@ def drop_scripts(rng, thorough):
 
 def run(chk, replay=None):
     chk.rule = ("cases = (a) for each of PULL/SUB/DEALER/ROUTER/REP/XPUB: a 3-frame message arriving up to every byte position, the pending recv polled 0-3 times and dropped, "
-                "repeatedly, then drained (TraceDelivery); (b) every REQ call sequence of length D over {send, recv, poll, drop, reply, unsolicited, second peer} enumerated by TLC "
+                "repeatedly, then drained (TraceDelivery); (b) every REQ call sequence of length D over {send, recv, poll, drop, reply, unsolicited, second peer} and every REP sequence over {request 1, request 2, malformed, recv, poll, drop, send} that contains a poll or drop, enumerated by TLC "
                 "(TraceReqRep); (c) TLC-enumerated socket-level schedules with drops (GenDelivery) and fair-queue behaviours with Cancel (GenFQ); the cancellation point of the "
                 "future is the crash point; distinct = distinct scripts; non-trivial = contains a drop")
     chk.assumptions = ["TLC and CommunityModules are correct", "a dropped future is observed through later API results only"]
@@ -52,7 +56,7 @@ def run(chk, replay=None):
     if replay:
         rp = json.load(open(replay))["replay"]
         sc = rp["script"]
-        v = dlvlib.run_scripts(chk, [sc], "replay", monitor="TraceReqRep" if sc["sock"] == "REQ" else "TraceDelivery")
+        v = dlvlib.run_scripts(chk, [sc], "replay", monitor=rp.get("monitor") or ("TraceReqRep" if sc["sock"] == "REQ" else "TraceDelivery"))
         dlvlib.report(chk, relabel(v), [sc], ("C14/",), "replay")
         return
     # models: Cancel changes nothing in the fair queue (no state differs), REQ marker survives a dropped recv
@@ -73,7 +77,15 @@ def run(chk, replay=None):
     for s in fam: chk.case(("req", s["scen"]))
     chk.sample({"kind": "REQ sequence with drops", "ops": [o["op"] for o in fam[len(fam) // 2]["ops"]]})
     v = dlvlib.run_scripts(chk, fam, "c14-req", monitor="TraceReqRep")
-    dlvlib.report(chk, relabel(v), fam, ("C14/",), "req-sequences")
+    dlvlib.report(chk, relabel(v), fam, ("C14/",), "req-sequences", monitor="TraceReqRep")
+    fam = []
+    for seq in rrlib.gen_seqs(chk, rrlib.REP_OPS, 6 if thorough else 5, ["recv_drop"], "rep"):
+        if "recv_drop" in seq or "recv_poll" in seq:
+            scen += 1; fam.append(rrlib.rep_script(seq, scen))
+    for s in fam: chk.case(("rep", s["scen"]))
+    chk.sample({"kind": "REP sequence with drops", "ops": [o["op"] for o in fam[len(fam) // 2]["ops"]]})
+    v = dlvlib.run_scripts(chk, fam, "c14-rep", monitor="TraceReqRep")
+    dlvlib.report(chk, relabel(v), fam, ("C14/",), "rep-sequences", monitor="TraceReqRep")
     # fair queue level: behaviours with Cancel
     st = fqlib.run_fq(chk, ("C05/", "C06/"), nsim=1500 if thorough else 200, nstarve=10, nrand=600 if thorough else 150)
     chk.viol = [(("C14/" + c.replace("/", ":")) if not c.startswith("C14/") else c, d, r) for (c, d, r) in chk.viol]
